@@ -129,7 +129,7 @@ def synthetic_multi_agent_env():
     return SynthMA()
 
 
-def drive_env(name, tier, seed):
+def drive_env(name, tier, seed, hist_file=None):
     import jax
     import jax.numpy as jnp
 
@@ -251,6 +251,27 @@ def drive_env(name, tier, seed):
     gym_reset(seed_arg=2 ** 31 - 1)
     gym_reset()
 
+    # ---- HIST: call histories generated by TLC from MC_Adapters (seed / reset / step interleavings) ----
+    if hist_file:
+        with open(hist_file) as f:
+            hists = json.load(f)["histories"]
+        seedmap = {0: 0, 1: s1, 2: 2 ** 31 - 1}
+        for hi, hist in enumerate(hists):
+            tid = 100 + hi
+            init = seedmap[hist[0][1]]
+            g = JumanjiToGymWrapper(env, seed=init)
+            events.append({"k": "gym_init", "env": name, "tid": tid, "seed": init, "prng": keyd(jax.random.PRNGKey(init)),
+                           "key_after": keyd(g._key), "obs_decl": obs_decl, "act_decl": act_decl})
+            for op, k in hist[1:]:
+                if op == "seed":
+                    g.seed(seedmap[k])
+                    events.append({"k": "gym_seed", "env": name, "tid": tid, "seed": seedmap[k],
+                                   "prng": keyd(jax.random.PRNGKey(seedmap[k])), "key_after": keyd(g._key)})
+                elif op == "reset":
+                    gym_reset()
+                elif op == "step" and g._state is not None:
+                    gym_steps(1)
+
     # ---- dm_env adapter ----
     tid = 2
     dkey = jax.random.PRNGKey(seed * 7 + 5)
@@ -310,13 +331,15 @@ def dm_validate(d, obs):
 
 
 def main():
-    name, tier, seed, out = sys.argv[1:5]
+    name, tier, seed = sys.argv[1:4]
+    out = sys.argv[-1]
+    hist_file = sys.argv[4] if len(sys.argv) > 5 else None
     from harness.common import setup_env
 
     setup_env()
     t0 = time.time()
     try:
-        evs = drive_env(name, tier, int(seed))
+        evs = drive_env(name, tier, int(seed), hist_file)
         with open(out, "w") as f:
             f.write(dumps({"k": "hdr", "env": name, "cfg": {}, "tier": tier, "seed": int(seed)}) + "\n")
             for e in evs:
